@@ -10,6 +10,8 @@ import TaskModel.Sched.LiveAll
 import TaskModel.Sched.OldRule
 import TaskModel.Sched.TermAll
 import TaskModel.Gen.Codes
+import TaskModel.Sched.MonVal
+import Props.C02
 /-!
 # C07 — Bounded concurrency, no deadlock, guaranteed termination
 
@@ -17,6 +19,13 @@ Statements are about every trace the executor model accepts (`replay … = some 
 programs, flags, interleavings.  Tie: the `sched` correspondence replays the event log of
 the real executor through the same `replay`; `boundOk` is also evaluated directly on the
 implementation's event log (`monitorVerdicts`).
+
+Which statements say what (audit, session 3).  Single-step statements that restate a guard of the acceptor:
+`C07_work_conserving_dep`, `C07_work_conserving_acquire`, `C07_acquire_waits_for_slot`, `C07_cycle_error`,
+`C07_cycle_error_dedup`, `C07_wait_or_refuse` — their assurance about the real executor is the acceptance of its
+logs (and the barrier probe for work conservation).  Trace-level: `C07_bound`, `C07_tokens_are_holders`,
+`C07_cycle_bound`, `C07_wait_acyclic`, `C07_waitsFor_exact`, `C07_no_deadlock`, `C07_completes`,
+`C07_terminates_all`, `C07_ends`, `C07_no_204_if_refs_lt_max`, `C07_all_work_done`.
 -/
 namespace Props.C07
 open TaskModel.Sched.S7
@@ -551,5 +560,90 @@ theorem C07_old_rule_deadlock :
     rw [hr] at h1 h2
     simp only [Option.map_some, Option.some.injEq, Prod.mk.injEq] at h1 h2
     exact ⟨c, rfl, ⟨h2.1, h2.2.1, h2.2.2.1, h2.2.2.2⟩, deadlocked_sound_old onceDep {} c h1⟩
+
+/-! ## the call limit and ACYCLIC programs (open finding `C07-call-limit-hits-acyclic-graphs`)
+
+`MaximumTaskCall` is a per-task count of calls within one invocation, not a recursion depth.  It cuts
+every cycle (`C07_cycle_bound`, `C07_cycle_error`) — and it also cuts acyclic programs that refer to one
+task often enough: a binary tree of `task:` entries of depth 10, a `for:` loop over 1000 items, a
+`run: once` task with 1000 dependents.  The model mirrors the code (`earlyResult`), so the statement
+"an acyclic program never ends a call with 204" is FALSE of it; what holds is the partial statement
+below: no activation of a task is refused while the task has been referred to fewer than `maxCalls`
+times.  The driver evaluates `callLimitMon` on every log (verdict `C07a`). -/
+
+/-- the full statement: in an accepted run of an acyclic program no activation is born with the
+"called too many times" error -/
+def C07_acyclic_no_204 : Prop :=
+  ∀ (P : Program) (F : Flags) (n : Nat) (tr : List Label) (c : Config),
+    acyclic P = true → replay P F (init n) tr = some c → limitHits P F (init n) tr = false
+
+/-- two tasks, no cycle: task 0 calls task 1 twice; with a limit of 2 the second call is refused -/
+private def progA : Program := [{ cmds := [.call 1 false, .call 1 false] }, { cmds := [.shell 0 false false] }]
+private def runA : List Label :=
+  [⟨1, .enter (.top 0) 0⟩, ⟨1, .acquire⟩, ⟨1, .depsRelease⟩, ⟨1, .depsReacq⟩, ⟨1, .depsDone .ok⟩, ⟨1, .guardsPassed⟩,
+   ⟨1, .callRelease 0 false⟩, ⟨2, .enter (.call 1 0 false) 1⟩, ⟨2, .acquire⟩, ⟨2, .depsRelease⟩, ⟨2, .depsReacq⟩,
+   ⟨2, .depsDone .ok⟩, ⟨2, .guardsPassed⟩, ⟨2, .cmdStart 0 none false⟩, ⟨2, .cmdEnd 0 .ok⟩, ⟨2, .release⟩, ⟨2, .exit⟩,
+   ⟨1, .callRet 0⟩, ⟨1, .callReacq 0⟩, ⟨1, .callRelease 1 false⟩, ⟨3, .enter (.call 1 1 false) 1⟩, ⟨3, .exit⟩,
+   ⟨1, .callRet 1⟩, ⟨1, .callReacq 1⟩, ⟨1, .release⟩, ⟨1, .exit⟩]
+
+/-- **C07 (counterexample).** The full statement is false: an acyclic program, an accepted complete run,
+and an activation refused by the call limit (the mechanism does not depend on the value of the limit;
+the witness `findings/C07-call-limit-hits-acyclic-graphs.json` shows it with the real 1000). -/
+theorem C07_acyclic_no_204_counterexample : ¬ C07_acyclic_no_204 := by
+  intro h
+  have h1 : acyclic progA = true := by decide
+  have h2 : (replay progA { maxCalls := 2 } (init 1) runA).isSome = true := by decide
+  obtain ⟨c, hc⟩ := Option.isSome_iff_exists.mp h2
+  have h3 := h progA { maxCalls := 2 } 1 runA c h1 hc
+  have h4 : limitHits progA { maxCalls := 2 } (init 1) runA = true := by decide
+  rw [h4] at h3; cases h3
+
+/-- the refused call returns 204 to its caller, which fails: the invocation ends with 201 wrapping it -/
+example : ((replay progA { maxCalls := 2 } (init 1) runA).bind (·.act? 1)).map (·.res) = some (.run (.typed 204)) := by decide
+example : callLimitMon progA { maxCalls := 2 } 1 runA = false := by decide
+
+/-- **C07 (partial: no refusal below the limit).** In every accepted run, an activation of task `t` created
+when `t` has been referred to fewer than `maxCalls - 1` times so far is NOT born with the call-limit error —
+for every program, cyclic or not.  (With `C07_cycle_error`: the limit is hit exactly by the `maxCalls`-th
+reference.) -/
+theorem C07_no_204_if_refs_lt_max (P : Program) (F : Flags) (n : Nat) (tr : List Label) (c : Config)
+    (h : replay P F (init n) tr = some c) (t : Nat) (hlt : enters t tr + 1 < F.maxCalls) :
+    limitHit P F c t = false := by
+  have hcc := (callInv_reach P F t n tr c h).2.2.2.1
+  have hle : c.callCount t ≤ enters t tr := by rw [hcc]; split <;> omega
+  unfold limitHit earlyResult
+  cases hd : P[t]? with
+  | none => simp
+  | some d =>
+    simp only
+    repeat' split
+    all_goals first
+      | rfl
+      | (simp; done)
+      | (exfalso; omega)
+
+/-- a run with fewer than `maxCalls` activations altogether never hits the limit: `callLimitMon` can only fail
+on runs at least that long -/
+example : callLimitMon progA { maxCalls := 1000 } 1 runA = true := by decide
+
+/-! ## all the work is done (trace-level)
+
+What "the invocation terminates" leaves open: that a returned activation has actually DONE its work.  For an
+activation that has returned (`done`), passed its guards and recorded no failure: every non-deferred entry of its
+command list was started (`C02_body_complete`), every deferred entry ran, last one first
+(`C14_all_run_complete`), it holds no slot, and every activation below it — dependencies, called tasks, their
+descendants — has returned with all its deferred entries run (`C02_descendants_done`). -/
+
+theorem C07_all_work_done (P : Program) (F : Flags) (n : Nat) (tr : List Label) (c : Config)
+    (h : replay P F (init n) tr = some c) (a : Nat) (x : Act) (hx : c.act? a = some x)
+    (hd : x.phase = .done) (hg : Ev.guardsPassed ∈ evsOf a tr) (ho : x.out = {}) :
+    x.started = plainBelow x.def_.cmds x.def_.cmds.length ∧
+    x.ran = (defersBelow x.def_.cmds x.def_.cmds.length).reverse ∧
+    x.holds = false ∧
+    (∀ b, Props.C02.Descendant c a b → Props.C02.Finished c b) := by
+  refine ⟨Props.C02.C02_body_complete P F n tr c h a x hx hg (by rw [hd]; rfl) ho,
+    Props.C14.C14_all_run_complete P F n tr c h a x hx hg (by rw [hd]; rfl) ho, ?_,
+    fun b hb => Props.C02.C02_descendants_done P F n tr c h a b x hx hd hb⟩
+  rw [(C07_holds_while_running P F n tr c h a x hx).1, hd]; rfl
 
 end Props.C07
